@@ -77,7 +77,7 @@ def gen(rng, tier, index):
     if not strict and n and rng.random() < 0.3:
         stages = [s['id'] for s in desc['stages'] if 'id' in s]
         faults = [{'stage': rng.choice(stages), 'pos': rng.randrange(n),
-                   'exc': rng.choice(['value', 'filter', 'base', 'key', 'index', 'timeout'])}]
+                   'exc': rng.choice(['value', 'filter', 'base', 'key', 'index', 'timeout', 'stopiter'])}]
     trace = ['parallel_utils', 'core'] if rng.random() < 0.3 else ['parallel_utils']
     # key iteration: the worker then iterates a generator object, not a dataset
     pi_ = pargen.par_index(desc)
